@@ -55,12 +55,17 @@ inductive Op where
   | nop
   | assert (m : Nat)                    -- call of janet_sandbox_assert with constant mask
   | libc (fn : String) (name : String)  -- OS-level call `name` made by C function `fn`
-  | call (g : Nat)                      -- direct call (or hand-over to a worker thread) of function `g` of the slice
+  | call (g : Nat) (m0 : Nat)           -- direct call (or hand-over to a worker thread) of function `g` of the slice; the
+                                        -- callee's tracked variable starts at `m0` (constant argument bound to a parameter
+                                        -- listed in `Cap.paramModes`; 0 for every other function)
   | havoc                               -- indirect call, call into the interpreter / of a function that may reach
                                         -- janet_sandbox, store to the flag word: the interpreter runs (see `Ex`)
   | ret
   | modeSet (m : Nat)                   -- the tracked open(2)-flags variable of this activation := m  (relevant bits only)
   | modeOr (m : Nat)                    -- … |= m
+  | modeUpd (keep : Nat) (or : Nat)     -- … := (… &&& keep) ||| or   (assignment to one of two variables packed in the word)
+  | assertMd (shift : Nat)              -- call of janet_sandbox_assert with the tracked *mask variable* (`md >>> shift`):
+                                        -- `x = 0; x |= C1; if (…) x |= C2; janet_sandbox_assert(x)`
   deriving Repr, DecidableEq
 
 structure Node where
@@ -82,10 +87,10 @@ structure Graph where
 abbrev Case := Nat × List Nat
 
 /-- Untrusted certificate.  Per node a list of cases (disjunction: one of them describes the current state; no case =
-    unreachable); per function a precondition / postcondition (groups only) and a purity flag. -/
+    unreachable); per function a postcondition (groups only) and a purity flag.  The precondition of a function is the
+    case list of its entry node: one case per initial value of the tracked variable (`Op.call g m0`). -/
 structure Cert where
   k : Nat → List Case      -- per node, on entry to the node
-  fpre : Nat → List Nat    -- per function, at its entry (valid at every call site)
   fpost : Nat → List Nat   -- per function, at every return
   isPure : Nat → Bool      -- per function: never changes the flag word
 
@@ -110,7 +115,8 @@ section semantics
 variable (G : Graph)
 
 /-- Executions.  `Ex false n F md n' F' md'`: starting at node `n` with flag word `F` and mode variable `md`, control
-    reaches node `n'` *of the same activation* with `F'`, `md'` (calls are executed to completion, with a fresh mode variable).
+    reaches node `n'` *of the same activation* with `F'`, `md'` (calls are executed to completion, with a fresh mode variable
+    that starts at the call's `m0`).
     `Ex true 0 F 0 0 F' 0`: a run of the interpreter / of code outside the slice that changes the flag word from `F` to `F'`:
     any sequence of (a) growth of the flag word (janet_sandbox) and (b) calls of entry points of the graph, each executed
     up to any point (completion, or abandoned by a panic) - under the same thread-global flag word.
@@ -127,10 +133,14 @@ inductive Ex : Bool → Nat → Nat → Nat → Nat → Nat → Nat → Prop
       Ex false s F m n' F' md' → Ex false n F md n' F' md'
   | modeOr {n F md s n' F' md' m} : n < G.size → (G.node n).op = .modeOr m → s ∈ (G.node n).succs →
       Ex false s F (md ||| m) n' F' md' → Ex false n F md n' F' md'
+  | modeUpd {n F md s n' F' md' kp o} : n < G.size → (G.node n).op = .modeUpd kp o → s ∈ (G.node n).succs →
+      Ex false s F ((md &&& kp) ||| o) n' F' md' → Ex false n F md n' F' md'
+  | assertMd {n F md s n' F' md' sh} : n < G.size → (G.node n).op = .assertMd sh → assertPasses F (md >>> sh) = true →
+      s ∈ (G.node n).succs → Ex false s F md n' F' md' → Ex false n F md n' F' md'
   | havoc {n F md F1 s n' F' md'} : n < G.size → (G.node n).op = .havoc → Ex true 0 F 0 0 F1 0 →
       s ∈ (G.node n).succs → Ex false s F1 md n' F' md' → Ex false n F md n' F' md'
-  | call {n F md g r F1 mdr s n' F' md'} : n < G.size → (G.node n).op = .call g →
-      Ex false (G.fnEntry g) F 0 r F1 mdr → r < G.size → (G.node r).op = .ret →
+  | call {n F md g m0 r F1 mdr s n' F' md'} : n < G.size → (G.node n).op = .call g m0 →
+      Ex false (G.fnEntry g) F m0 r F1 mdr → r < G.size → (G.node r).op = .ret →
       s ∈ (G.node n).succs → Ex false s F1 md n' F' md' → Ex false n F md n' F' md'
   | idone (F) : Ex true 0 F 0 0 F 0
   | igrow {F F1 F2} : subMask F F1 = true → Ex true 0 F1 0 0 F2 0 → Ex true 0 F 0 0 F2 0
@@ -142,8 +152,8 @@ inductive Ex : Bool → Nat → Nat → Nat → Nat → Nat → Nat → Prop
     `md'`.  `Ob true 0 F 0 c F' md'`: same, during an interpreter run that starts with flag word `F`. -/
 inductive Ob : Bool → Nat → Nat → Nat → Nat → Nat → Nat → Prop
   | here {n F md c F' md'} : Ex G false n F md c F' md' → Ob false n F md c F' md'
-  | inCall {n F md n1 F1 md1 g c F' md'} : Ex G false n F md n1 F1 md1 → n1 < G.size → (G.node n1).op = .call g →
-      Ob false (G.fnEntry g) F1 0 c F' md' → Ob false n F md c F' md'
+  | inCall {n F md n1 F1 md1 g m0 c F' md'} : Ex G false n F md n1 F1 md1 → n1 < G.size → (G.node n1).op = .call g m0 →
+      Ob false (G.fnEntry g) F1 m0 c F' md' → Ob false n F md c F' md'
   | inHavoc {n F md n1 F1 md1 c F' md'} : Ex G false n F md n1 F1 md1 → n1 < G.size → (G.node n1).op = .havoc →
       Ob true 0 F1 0 c F' md' → Ob false n F md c F' md'
   | iskipGrow {F F1 c F' md'} : subMask F F1 = true → Ob true 0 F1 0 c F' md' → Ob true 0 F 0 c F' md'
@@ -162,8 +172,10 @@ def caseOK (need : String → String → Nat → List Nat) (G : Graph) (C : Cert
   | .assert a => nd.succs.all (fun s => cover (C.k s) m (fun g' => g' &&& a != 0 || imp g' gs))
   | .modeSet x => nd.succs.all (fun s => cover (C.k s) x (fun g' => imp g' gs))
   | .modeOr x => nd.succs.all (fun s => cover (C.k s) (m ||| x) (fun g' => imp g' gs))
+  | .modeUpd kp o => nd.succs.all (fun s => cover (C.k s) ((m &&& kp) ||| o) (fun g' => imp g' gs))
+  | .assertMd sh => nd.succs.all (fun s => cover (C.k s) m (fun g' => g' &&& (m >>> sh) != 0 || imp g' gs))
   | .havoc => nd.succs.all (fun s => cover (C.k s) m (fun _ => false))
-  | .call g => impAll (C.fpre g) gs && cover (C.k (G.fnEntry g)) 0 (fun g' => imp g' (C.fpre g)) &&
+  | .call g m0 => cover (C.k (G.fnEntry g)) m0 (fun g' => imp g' gs) &&
       nd.succs.all (fun s => cover (C.k s) m (fun g' => (C.isPure g && imp g' gs) || imp g' (C.fpost g)))
   | .ret => impAll (C.fpost nd.fn) gs
 
@@ -173,10 +185,10 @@ def nodeOK (need : String → String → Nat → List Nat) (G : Graph) (C : Cert
   nd.succs.all (fun s => (G.node s).fn == nd.fn) &&
   (!C.isPure nd.fn || (match nd.op with
                        | .havoc => false
-                       | .call g => C.isPure g
+                       | .call g _ => C.isPure g
                        | _ => true)) &&
   (match nd.op with
-   | .call g => (G.node (G.fnEntry g)).fn == g
+   | .call g _ => (G.node (G.fnEntry g)).fn == g
    | _ => true) &&
   -- every case known at the node is carried on correctly
   (C.k n).all (fun c => caseOK need G C nd c.1 c.2)
@@ -188,6 +200,47 @@ def certOK (need : String → String → Nat → List Nat) (G : Graph) (C : Cert
 /-- the nodes the checker rejects (for diagnostics / the witness synthesiser) -/
 def badNodes (need : String → String → Nat → List Nat) (G : Graph) (C : Cert) : List Nat :=
   (List.range G.size).filter (fun n => !nodeOK need G C n)
+
+/-! ## Entry points = address-taken functions of the slice
+
+Functions of the *program* are identified by their position in the IR (`Gen.Sandbox.progFns`: id ↦ C name, definition
+order); `ids` maps the functions of the slice (graph function index) to program ids.  (Comparing names as strings is ~2 ms
+per comparison in the kernel; the numbering is checked against the name table of the graph by `namesAgree`.) -/
+
+/-- same graph, other entry list -/
+def Graph.withEntries (G : Graph) (es : List Nat) : Graph := { G with entries := es }
+
+/-- The functions of the slice whose address is taken anywhere in the program (`taken`: program ids found by the
+    translator's independent scan of the IR text for every mention of a defined function outside the callee position of a
+    direct call - initialisers of `JanetReg`/`JanetMethod`/abstract-type tables, stores, call arguments). -/
+def addrEntries (ids : List Nat) (taken : List Nat) : List Nat :=
+  (List.range ids.length).filter (fun i => taken.contains (ids.getD i 0))
+
+/-- executable form of `∀ f ∈ taken, f ∈ slice → f ∈ entries` (evaluated function by function of the slice) -/
+def entriesCover (ids : List Nat) (entries : List Nat) (taken : List Nat) : Bool :=
+  (List.range ids.length).all (fun i => entries.contains i || !taken.contains (ids.getD i 0))
+
+/-- Functions handed to a spawner (`Cap.spawners`) as a constant argument are *called* at the hand-over point: for every
+    such (function, caller) pair with the function in the slice, the caller is in the slice and has a `call` node for it. -/
+def handoversOK (G : Graph) (ids : List Nat) (hs : List (Nat × Nat)) : Bool :=
+  hs.all (fun h =>
+    let g := ids.idxOf h.1
+    let f := ids.idxOf h.2
+    g ≥ ids.length ||
+      (f < ids.length && (List.range G.size).any (fun n => (G.node n).fn == f &&
+        (match (G.node n).op with
+         | .call g' _ => g' == g
+         | _ => false))))
+
+/-- the names of `prog` (position `k`, `k+1`, …) at the ascending positions `ids` -/
+def pickNames : List String → Nat → List Nat → List String
+  | [], _, _ => []
+  | _ :: _, _, [] => []
+  | x :: xs, k, i :: is => if i == k then x :: pickNames xs (k + 1) is else pickNames xs (k + 1) (i :: is)
+
+/-- the slice's name table is the program's name table at the slice's (ascending) ids -/
+def namesAgree (prog : List String) (ids : List Nat) (names : Array String) : Bool :=
+  pickNames prog 0 ids == names.toList
 
 /-! ## Side tables -/
 
